@@ -78,6 +78,14 @@ Fixpoint kw_of_vals (l : list value) (acc : list (name * value)) : option (list 
   | _ => None
   end.
 
+(* BuildMap: [vals] = k1 v1 .. kn vn, deepest first *)
+Fixpoint pairs_of_vals (l : list value) : option (list (value * value)) :=
+  match l with
+  | [] => Some []
+  | k :: v :: l' => omap (cons (k, v)) (pairs_of_vals l')
+  | _ => None
+  end.
+
 (* Kwargs::extract on the last argument *)
 Definition split_kwargs (args : list value) : list value * list (name * value) :=
   match rev args with
@@ -105,7 +113,7 @@ Proof.
   decide equality; try apply Z.eq_dec; try apply bool_dec; try apply lit_eq_dec; try apply binop_eq_dec;
     try (apply list_eq_dec; exact expr_eq_dec);
     try (apply option_eq_dec; exact expr_eq_dec);
-    try (apply list_eq_dec; apply pair_eq_dec; [first [apply cmpop_eq_dec|apply Z.eq_dec]|exact expr_eq_dec]).
+    try (apply list_eq_dec; apply pair_eq_dec; [first [apply cmpop_eq_dec|apply Z.eq_dec|exact expr_eq_dec]|exact expr_eq_dec]).
 Defined.
 
 Fixpoint stmt_eq_dec (a b : stmt) {struct a} : {a = b} + {a <> b}.
@@ -115,7 +123,7 @@ Proof.
     try (apply list_eq_dec; exact stmt_eq_dec);
     try (apply list_eq_dec; exact expr_eq_dec);
     try (apply option_eq_dec; first [exact expr_eq_dec|apply Z.eq_dec|apply list_eq_dec; exact stmt_eq_dec]);
-    try (apply list_eq_dec; apply pair_eq_dec; [first [apply Z.eq_dec|exact expr_eq_dec]|first [exact expr_eq_dec|apply list_eq_dec; exact stmt_eq_dec]]).
+    try (apply list_eq_dec; apply pair_eq_dec; [first [apply Z.eq_dec|exact expr_eq_dec|apply target_eq_dec]|first [exact expr_eq_dec|apply list_eq_dec; exact stmt_eq_dec]]).
 Defined.
 
 Definition macro_eq_dec (a b : macro) : {a = b} + {a <> b}.
@@ -139,6 +147,7 @@ Definition loop_items_of (m : ubehav) (v : value) : outcome (list value) :=
   match v with
   | VList l => Ok l
   | VStr _ t => Ok (map (fun ch => VStr false [ch]) t)
+  | VMap kvs => Ok (map fst kvs)
   | VUndef => if u_strictish m then Err E_UndefinedError else Ok []
   | VSilent => Ok []
   | _ => Err E_InvalidOperation
@@ -175,12 +184,12 @@ Definition derive_auto_escape (v : value) : outcome bool :=
 
 (* GetAttr / GetItem *)
 Definition get_attr (m : ubehav) (x : value) (a : name) : outcome value :=
-  match (match x with VLoop i n => loop_attr i n a | _ => None end) with
+  match get_attr_opt x a with
   | Some v => Ok v
   | None => u_handle_undefined m (is_undef x)
   end.
 Definition get_item (m : ubehav) (x k : value) : outcome value :=
-  match (match x, k with VList l, VInt z => idx_list l z | _, _ => None end) with
+  match get_item_opt x k with
   | Some v => Ok v
   | None => u_handle_undefined m (is_undef x)
   end.
@@ -249,10 +258,22 @@ Definition exec_instr (i : instr) (σ : vm) : outcome vm :=
       | VInt n :: r0 => match pop_n (Z.to_nat n) r0 [] with Some (vs, r) => next σ (VList vs :: r) s | None => Panic end
       | _ => Panic
       end
+  | IBuildMap n =>
+      match pop_n (2 * n) stk [] with
+      | Some (vals, r) =>
+          match pairs_of_vals vals with
+          | Some kvs => next σ (VMap (map_of_pairs kvs) :: r) s
+          | None => Panic
+          end
+      | None => Panic
+      end
   | IUnpackList n =>
       match stk with
-      | VList l :: r => if Nat.eqb (length l) n then next σ (l ++ r) s else Err E_CannotUnpack
-      | _ :: _ => Err E_CannotUnpack
+      | v :: r =>
+          match unpack_items v with
+          | Some l => if Nat.eqb (length l) n then next σ (l ++ r) s else Err E_CannotUnpack
+          | None => Err E_CannotUnpack
+          end
       | [] => Panic
       end
   | IBinOp op =>
